@@ -221,6 +221,9 @@ def scan_parse_loop(repo: Path):
     if len(loop.body) == 1 and isinstance(loop.body[0], ast.For) and not loop.orelse:
         fr = loop.body[0]
         it = fr.iter
+        if isinstance(it, ast.Call) and getattr(it.func, "id", None) in ("list", "tuple") and len(it.args) == 1 \
+                and not it.keywords:
+            it = it.args[0]          # list(document.findall(nodes.raw)): the same list
         it_ok = (isinstance(it, ast.Call) and attr_chain(it.func) in (["document", "traverse"], ["document", "findall"])
                  and len(it.args) == 1 and is_nodes_raw(it.args[0]) and not it.keywords)
         b = fr.body
@@ -230,8 +233,9 @@ def scan_parse_loop(repo: Path):
                    and attr_chain(b[1].value.func) == [fr.target.id, "parent", "replace"]
                    and [getattr(a, "id", None) for a in b[1].value.args] == [fr.target.id, b[0].targets[0].id]
                    and not fr.orelse)
-        # findall is lazy: replacing while iterating would skip nodes; traverse() returns a list
-        exact = it_ok and body_ok and attr_chain(it.func)[-1] == "traverse"
+        # traverse() returns the list; findall() is a generator over the same nodes, and replacing an
+        # item of a children list in place does not disturb it
+        exact = it_ok and body_ok
     top_level = loop in parse.body
     after = render_line is not None and render_line < loop.lineno and not any(
         isinstance(n, ast.Return) for s in parse.body if getattr(s, "lineno", 0) > render_line
